@@ -1,7 +1,7 @@
 #!/bin/bash
 # confirm_seed.sh <cNN> <label>: confirm a sub-agent's seeded change in its scratch worktree and store it under /verif/seeded/
 export GOFLAGS=-mod=mod GOPROXY=off GOSUMDB=off GOTOOLCHAIN=local
-p=$1; label=$2; P=$(echo $p | tr a-z A-Z); wt=/tmp/wt-$p; sd=/tmp/seed-$p
+p=$1; label=$2; P=$(echo ${p:0:3} | tr a-z A-Z); wt=/tmp/wt-$p; sd=/tmp/seed-$p
 cd $wt || exit 2
 echo "=== $p changed files: $(git status --short | tr '\n' ' ')"
 git diff > /tmp/seed-$p/patch.confirm.diff
